@@ -19,12 +19,13 @@ ASSUMPTIONS = ['exactq (Python int arithmetic: floor_ex, ceil_ex, nint_ex, frac_
                'exponent gaps between dividend and divisor above 2*10^6 are only generated where the result does not need the '
                'implementation to materialise the shift (same-sign small dividend, power-of-two divisor)']
 SHARD_TIMEOUT = {'quick': 300, 'thorough': 2400}
-LEVEL_TEXT = ('exploration: ~3*10^5 (quick) / ~7*10^6 (thorough) generated calls on the real code; every result compared bit-for-bit with '
+LEVEL_TEXT = ('exploration: ~3*10^5 (quick) / ~3.8*10^6 (thorough) generated calls on the real code; every result compared bit-for-bit with '
               'the exact definition (exact when it fits in the precision, else its correct rounding)')
 LEVEL_NOTE = 'trusted base: vf/exactq.py (integer arithmetic only); inputs not generated are not covered'
 TECHNIQUE = 'runtime reference-model monitor: exact-definition oracle on every observed integer-part / remainder result'
 
-CASES = {'quick': 20000, 'thorough': 450000}
+CASES = {'quick': 20000, 'thorough': 240000}
+_BIG = 0.0              # share of precisions drawn from the 2500..3500 list (thorough tier only)
 FUNCS = ['floor', 'ceil', 'nint', 'frac', 'cfloor', 'cceil', 'cnint', 'cfrac', 'int', 'mod', 'mod-small', 'mod-pow2', 'mod-long',
          'mod-mixed', 'fmod', 'rmod']
 XCLASSES = ['lt1', 'half', 'nearint', 'long', 'hugeexp', 'tiny', 'integer', 'zero', 'random', 'quarter']
@@ -57,7 +58,7 @@ def gen_x(r, cls, p):
     if cls == 'nearint':
         k = r.getrandbits(r.choice([1, 3, 10, p, p + 3, 2 * p])) + r.choice([0, 1])
         j = r.choice([1, 2, 5, p, p + 1, 3 * p, 500])
-        return Q.canon(s, (k << j) + r.choice([-1, 1]), -j)
+        return Q.canon(s, max(1, (k << j) + r.choice([-1, 1])), -j)
     if cls == 'long':
         ib = r.choice([p + 1, p + 2, 2 * p, 3 * p + 5])
         fb = r.choice([0, 1, 2, p, 40])
@@ -296,7 +297,7 @@ def run_case(mp, rec, r, i):
     fn = FUNCS[i % len(FUNCS)]
     xcls = XCLASSES[(i // len(FUNCS)) % len(XCLASSES)]
     mode = G.MODES[(i // (len(FUNCS) * len(XCLASSES))) % 5]
-    p = G.pick_prec(r, big=False)
+    p = G.pick_prec(r, big=(_BIG > 0 and r.random() < _BIG))
     if fn in ('floor', 'ceil', 'nint', 'frac'):
         via = 'kw' if (mode != 'n' or r.random() < 0.5) else 'ctx'
         check_fn(mp, rec, r, fn, fn, gen_x(r, xcls, p), p, mode, via, xcls)
@@ -337,6 +338,9 @@ def observe_astronomic_mixed_sign(mp, rec):
 
 
 def run_shard(shard, rec):
+    global _BIG
+    if shard.get('tier') == 'thorough':
+        _BIG = 0.12
     mp = _mp()
     r = G.rng(PROP, shard['seed'], shard['shard'])
     from vf.instrument import AnchorCount
